@@ -9,6 +9,8 @@
 #include <parmcb/detail/approx_spanner.hpp>
 #include <parmcb/parmcb_sva_signed_tbb.hpp>
 
+#ifdef PARMCB_HAVE_TBB
+
 namespace parmcb {
 
 namespace detail {
@@ -34,5 +36,7 @@ typename boost::property_traits<WeightMap>::value_type approx_mcb_sva_signed_tbb
 }
 
 } // parmcb
+
+#endif // PARMCB_HAVE_TBB
 
 #endif
